@@ -47,7 +47,9 @@ impl Thread {
     /// used as a more CPU-efficient implementation of a spinlock.
     ///
     /// See the [park documentation][park] for more details.
+    #[track_caller]
     pub fn unpark(&self) {
+        rt::branch_park(self.id.id, location!());
         rt::execution(|execution| execution.threads.unpark(self.id.id));
     }
 }
